@@ -49,7 +49,18 @@ MyersExplains(cfg, s, e) ==            \* s = state after the event (the cache)
       [] c.op = "best_end" ->
            /\ r.st = "ok"
            /\ Len(s[c.a.ti]) > 0 => r.v = BestEndOfRow(s[c.a.ti])
+      [] c.op = "blk_profile" -> r.st = "ok"      \* not a call of rust-bio, see MyersExact
       [] OTHER -> FALSE
+
+\* `blk_profile` records what the driver's transcription of the block machine (used to steer
+\* the generation towards rare band transitions and to count them) computed for this input:
+\* the number of active blocks after every text symbol. It must be what BlkStep of the
+\* specification computes at the real word size; a difference is reported as MODEL-DRIFT
+\* (the coverage counters of the driver would then not mean what they say), never as a
+\* violation of the property.
+MyersExact(cfg, e) ==
+    e.c.op = "blk_profile" =>
+        e.r.nb = BlkProfile(MkEq(cfg.p, cfg.ambig, cfg.wild), cfg.texts[e.c.a.ti], e.c.a.k, cfg.w)
 
 \* ---------------------------------------------------------------- ukkonen
 UkkExplains(cfg, e) ==
@@ -88,6 +99,8 @@ Explains(fam, cfg, s, e) ==
       [] fam = "dist"    -> DistExplains(cfg, s, e)
       [] OTHER           -> FALSE
 
+Exact(fam, cfg, e) == fam = "myers" => MyersExact(cfg, e)
+
 Init == run \in 1..Len(Rec) /\ idx = 0 /\ ok = TRUE /\ st = NoState
 Next ==
     /\ ok /\ idx < Len(Rec[run].ev)
@@ -97,7 +110,8 @@ Next ==
            good == Explains(R.fam, R.cfg, ns, e)
        IN  /\ ok' = good
            /\ st' = ns
-           /\ IF good THEN TRUE ELSE PrintT(<<"REJECT", run, idx + 1>>)
+           /\ IF good THEN (IF Exact(R.fam, R.cfg, e) THEN TRUE ELSE PrintT(<<"DRIFT", run, idx + 1>>))
+              ELSE PrintT(<<"REJECT", run, idx + 1>>)
     /\ idx' = idx + 1
     /\ UNCHANGED run
 Spec == Init /\ [][Next]_vars
